@@ -22,7 +22,8 @@ PKG_VERSION_KEYS = ["implementation_version", "platform_release", "python_full_v
 
 def string_name(n):
     """the variable is a plain string variable (well-defined string atoms): not version-like, not `extra`, not set-valued"""
-    return z3.And(*[n != z3.StringVal(v) for v in VERSION_LIKE + ["extra", "extras", "dependency_groups"]])
+    # (implementation_version is neither: packaging compares it as a version, the library's algebra views it as a string - outside the well-defined atoms)
+    return z3.And(*[n != z3.StringVal(v) for v in VERSION_LIKE + ["implementation_version", "extra", "extras", "dependency_groups"]])
 
 
 def meaning(ex, o):
@@ -231,7 +232,7 @@ class MergeSingle:
 
 class BridgeB2:
     """MarkerExpression._evaluate on a well-defined string atom agrees with its GenericSpecifier view (bridge B2), for both operand
-    orders.  'Well-defined string atom' = Specifier(op + literal) is not a valid PEP 440 specifier, modelled as: it raises InvalidSpecifier."""
+    orders, whether or not `op + literal` happens to be a valid PEP 440 specifier (packaging >= 25 compares only its MARKERS_REQUIRING_VERSION as versions)."""
     target = S + "MarkerExpression._evaluate"
 
     def __init__(self, th):
